@@ -463,6 +463,47 @@ pub fn ord_val(o: core::cmp::Ordering) -> Val {
     })
 }
 
+// ------------------------------------------------------------------ what an iterator reports about itself
+/// (t has_root is_absolute path-view-bytes variant) of a components iterator in its current state
+pub trait ItState {
+    fn it_state(&self) -> Val;
+}
+fn its(hr: bool, ab: bool, bytes: Vec<u8>, var: Val) -> Val {
+    c("t", vec![Val::Bool(hr), Val::Bool(ab), b(&bytes), var])
+}
+impl ItState for UnixComponents<'_> {
+    fn it_state(&self) -> Val {
+        its(self.has_root(), self.is_absolute(), self.as_path::<UnixEncoding>().as_bytes().to_vec(), Val::N)
+    }
+}
+impl ItState for WindowsComponents<'_> {
+    fn it_state(&self) -> Val {
+        its(self.has_root(), self.is_absolute(), self.as_path::<WindowsEncoding>().as_bytes().to_vec(), Val::N)
+    }
+}
+impl ItState for Utf8UnixComponents<'_> {
+    fn it_state(&self) -> Val {
+        its(self.has_root(), self.is_absolute(), self.as_path::<Utf8UnixEncoding>().as_str().as_bytes().to_vec(), Val::N)
+    }
+}
+impl ItState for Utf8WindowsComponents<'_> {
+    fn it_state(&self) -> Val {
+        its(self.has_root(), self.is_absolute(), self.as_path::<Utf8WindowsEncoding>().as_str().as_bytes().to_vec(), Val::N)
+    }
+}
+impl ItState for TypedComponents<'_> {
+    fn it_state(&self) -> Val {
+        let p = self.to_path();
+        its(self.has_root(), self.is_absolute(), p.as_bytes().to_vec(), p.variant())
+    }
+}
+impl ItState for Utf8TypedComponents<'_> {
+    fn it_state(&self) -> Val {
+        let p = self.to_path();
+        its(self.has_root(), self.is_absolute(), p.as_str().as_bytes().to_vec(), p.variant())
+    }
+}
+
 // ------------------------------------------------------------------ the interface
 pub trait Api {
     /// Some(()) when the family can represent these bytes (UTF-8 families need valid UTF-8)
@@ -515,7 +556,7 @@ macro_rules! impl_api {
                         },
                         None => Val::N,
                     };
-                    steps.push(c("st", vec![opt(cm, |x| x.val()), b(it.ab()), off]));
+                    steps.push(c("st", vec![opt(cm, |x| x.val()), b(it.ab()), off, it.it_state()]));
                 }
                 Val::L(steps)
             }
